@@ -34,6 +34,8 @@ CLAIMED = {
             'solo runs by z3 for all values; the hash-seed clause is decided by enumerating seeds in sub-processes (stated as enumeration, not solver-decided)'),
     'C12': ('6.C12', 'after symbolic evaluate()/update(), for every input variable and every assertion/sub-spec name z3 shows get_value(name) equals the supplied data '
             '/ the result of a stand-alone (pastified) specification of that name, for all values; four monitor kinds'),
+    'C13': ('6.C13', 'time-stamps (not assumed monotone) and the tolerance are symbolic, period/period unit/default unit are enumerated; on every path the concrete counter '
+            'is shown by z3 to equal the number of gaps outside [P(1-tol),P(1+tol)]; robustness values are shown independent of the time-stamps'),
 }
 NA = {
     'C14': 'the quantifier ranges over strings and every string is consumed by the ANTLR4 ATN interpreter, which cannot be encoded or '
